@@ -101,6 +101,54 @@ impl SimpleSerializer for DictionaryUtf8Builder {
         try_(|| self.serialize_str(variant)).ctx(self)
     }
 
+    fn serialize_i8(&mut self, v: i8) -> Result<()> {
+        try_(|| self.serialize_str(&v.to_string())).ctx(self)
+    }
+
+    fn serialize_i16(&mut self, v: i16) -> Result<()> {
+        try_(|| self.serialize_str(&v.to_string())).ctx(self)
+    }
+
+    fn serialize_i32(&mut self, v: i32) -> Result<()> {
+        try_(|| self.serialize_str(&v.to_string())).ctx(self)
+    }
+
+    fn serialize_i64(&mut self, v: i64) -> Result<()> {
+        try_(|| self.serialize_str(&v.to_string())).ctx(self)
+    }
+
+    fn serialize_u8(&mut self, v: u8) -> Result<()> {
+        try_(|| self.serialize_str(&v.to_string())).ctx(self)
+    }
+
+    fn serialize_u16(&mut self, v: u16) -> Result<()> {
+        try_(|| self.serialize_str(&v.to_string())).ctx(self)
+    }
+
+    fn serialize_u32(&mut self, v: u32) -> Result<()> {
+        try_(|| self.serialize_str(&v.to_string())).ctx(self)
+    }
+
+    fn serialize_u64(&mut self, v: u64) -> Result<()> {
+        try_(|| self.serialize_str(&v.to_string())).ctx(self)
+    }
+
+    fn serialize_f32(&mut self, v: f32) -> Result<()> {
+        try_(|| self.serialize_str(&v.to_string())).ctx(self)
+    }
+
+    fn serialize_f64(&mut self, v: f64) -> Result<()> {
+        try_(|| self.serialize_str(&v.to_string())).ctx(self)
+    }
+
+    fn serialize_char(&mut self, v: char) -> Result<()> {
+        try_(|| self.serialize_str(&v.to_string())).ctx(self)
+    }
+
+    fn serialize_bool(&mut self, v: bool) -> Result<()> {
+        try_(|| self.serialize_str(&v.to_string())).ctx(self)
+    }
+
     fn serialize_tuple_variant_start<'this>(
         &'this mut self,
         _: &'static str,
